@@ -737,8 +737,9 @@ def oracle(ctx, c, rep, blobs, shown, fin_sha, fin_md5, fin_names, js, verbose, 
             if WECC in size_warn:
                 ctx.violation('cert-rating/ecc-warning', '%s: ECC size warning on %d-bit key / %d-bit %s CA' % (n, bits, cbits, cat), rep)
         elif kind == 'ecdsa-cert':
-            if size_fail or size_warn:
-                ctx.violation('ecdsa-cert-size-note', '%s: a fixed-size %d-bit ECDSA certificate key carries the size notes %r' % (n, bits, size_fail + size_warn), rep)
+            own = [t for t in size_fail if 'CA key' not in t] + [t for t in size_warn if t == WECC]
+            if own:
+                ctx.violation('ecdsa-cert-size-note', '%s: a fixed-size %d-bit ECDSA certificate key carries the size notes %r' % (n, bits, own), rep)
             if s['ca_type'] is None or s['ca_size'] is None:
                 ctx.violation('ecdsa-cert-ca-missing', '%s: the signing CA (%s, %d bits) of an ECDSA certificate host key is not reported' % (n, cat, cbits), rep)
         elif kind in ('ed25519', 'ed448'):
